@@ -336,6 +336,41 @@ func runC10(p *P, r *R) {
 	}
 	r.ob("R10.3", "(*Stream).close: the queue element announces streamClosed", p.pos(closeFn.Pos()), okStatus, true, "")
 
+	// ---- R10.7 which callback: a local close reports OnLocalClose unless the session died (then OnRemoteClose);
+	// the remote-close handler reports OnRemoteClose
+	isSessClosedCall := func(v ssa.Value) bool {
+		c, ok := v.(*ssa.Call)
+		return ok && p.calleeName(&c.Call) == "(*Session).IsClosed"
+	}
+	for _, f := range p.fnList {
+		allInstrs(f, func(in ssa.Instruction) {
+			c, ok := in.(*ssa.Call)
+			if !ok || !c.Call.IsInvoke() {
+				return
+			}
+			m := c.Call.Method.Name()
+			if m != "OnLocalClose" && m != "OnRemoteClose" {
+				return
+			}
+			if inFns(f, p.family(closeFn)) {
+				// decided by the session's liveness
+				var onClosedEdge, decided bool
+				for _, fct := range factsAt(in.Block()) {
+					cc, pol := condCall(fct.Cond)
+					if cc != nil && isSessClosedCall(cc) {
+						decided = true
+						onClosedEdge = fct.Truth == pol
+					}
+				}
+				want := m == "OnRemoteClose"
+				r.ob("R10.7", p.fname(f)+": "+m+" is reported on the right edge of the session-liveness test", p.ipos(in), decided && onClosedEdge == want, true,
+					"a local close is OnLocalClose; only when the whole session died is it reported as OnRemoteClose")
+			} else {
+				r.ob("R10.7", p.fname(f)+": the remote-close handler reports OnRemoteClose", p.ipos(in), m == "OnRemoteClose" && fromWire[f] && !fromClose[f], true, "")
+			}
+		})
+	}
+
 	// ---- R10.4 callbacks only behind a won CAS
 	nCb := 0
 	for _, f := range p.fnList {
